@@ -48,14 +48,14 @@ Proof. exact mix_total_lemma. Qed.
 Print Assumptions C02_mix_total.
 
 (* the stub package: no hypothesis on the oracles is left *)
-Theorem C02_mix_energy_stub : forall cn hf Tref st r others Q0 st' ins s',
+Theorem C02_mix_energy_stub : forall c hf Tref st r others Q0 st' ins s',
   Forall wfs st ->
-  mix_from (lin_oracles cn hf Tref) st r others Q0 = Ok st' ->
+  mix_from (lin_oracles c hf Tref) st r others Q0 = Ok st' ->
   streams_of st others <> [] ->
   sget_all st (streams_of st others) = Ok ins ->
   sget st' r = Ok s' ->
   ~ total s' == 0 ->
-  getH (lin_oracles cn hf Tref) s' == qsum (map (getH (lin_oracles cn hf Tref)) ins) + (Q0 + heats others).
+  getH (lin_oracles c hf Tref) s' == qsum (map (getH (lin_oracles c hf Tref)) ins) + (Q0 + heats others).
 Proof. exact mix_energy_stub_lemma. Qed.
 Print Assumptions C02_mix_energy_stub.
 
@@ -179,19 +179,20 @@ Proof. exact solve_wrapper_lemma. Qed.
 Print Assumptions C02_solve_wrapper.
 
 (* ---------------------------------------------------------------- the contracts are satisfiable: the linear stub
-   (H = sum n Cn (T - Tref), solver = one step of iter_T_at_HP) meets all of them *)
-Theorem C02_stub_contracts : forall cn hf Tref, contracts (lin_oracles cn hf Tref).
+   (H = sum n (Cn(phase) (T - Tref) + L(phase)), solver = one step of iter_T_at_HP) meets all of them *)
+Theorem C02_stub_contracts : forall c hf Tref, contracts (lin_oracles c hf Tref).
 Proof. exact lin_contracts. Qed.
 Print Assumptions C02_stub_contracts.
 
-Theorem C02_stub_solve_fix : forall cn Tref m x T P,
-  ~ lin_Cn cn m == 0 -> xsum (lin_H cn Tref) m T P == x ->
-  exists T', lin_solve cn Tref m x T P = Ok T' /\ T' == T.
+Theorem C02_stub_solve_fix : forall c Tref m x T P,
+  ~ lin_Cn c m == 0 -> xsum (lin_H c Tref) m T P == x ->
+  exists T', lin_solve c Tref m x T P = Ok T' /\ T' == T.
 Proof. exact lin_solve_fix. Qed.
 Print Assumptions C02_stub_solve_fix.
 
 (* ---------------------------------------------------------------- non-vacuity *)
-Definition exO := lin_oracles [64; 32; 128] [-1024; -512; 256] (5963 # 20).
+Definition exC := mkP [64; 32; 128] [32; 16; 64] [8192; 4096; 16384].
+Definition exO := lin_oracles exC [-1024; -512; 256] (5963 # 20).
 Definition exA := mkS false [(4%nat, [2; 0; 0])] 350 200000.
 Definition exB := mkS false [(3%nat, [0; 4; 0])] 320 101325.
 Definition exM := mkS true [(3%nat, [0; 1; 0]); (4%nat, [1; 0; 1])] 310 150000.
@@ -210,7 +211,7 @@ Example C02_mix_nonvacuous :
     streams_of exSt [IStream 0; IStream 3; IStream 1; IHeat 512; IStream 2] <> [] /\
     sget_all exSt (streams_of exSt [IStream 0; IStream 3; IStream 1; IHeat 512; IStream 2]) = Ok ins /\
     sget st' 0 = Ok s' /\ ~ total s' == 0 /\ Forall wfs exSt /\ contracts exO /\
-    getH exO s' == getH exO exA + getH exO exB + getH exO exM + (1024 + 512) /\ getH exO s' == 13624 /\ sP s' == 101325.
+    getH exO s' == getH exO exA + getH exO exB + getH exO exM + (1024 + 512) /\ getH exO s' == 32516 /\ sP s' == 101325.
 Proof.
   eexists; eexists; eexists.
   split; [vm_compute; reflexivity|]. split; [vm_compute; discriminate|].
@@ -239,15 +240,15 @@ Qed.
 
 Example C02_setH_nonvacuous :
   exists s', setH exO exM 8192 = (s', None) /\ ~ total exM == 0 /\ getH exO s' == 8192 /\
-             sT s' == (5963 # 20) + 8192 / 224.
+             sT s' == (5963 # 20) + (8192 - 4096) / 208.
 Proof.
   eexists. split; [vm_compute; reflexivity|]. split; [vm_compute; discriminate|].
   split; vm_compute; reflexivity.
 Qed.
 
 (* the phase-flip branch: the first solve fails, the flipped phase is solved *)
-Definition exOs := mkO (lin_H [64; 32; 128] (5963 # 20)) (fun _ _ _ _ => 0)
-                       (fun m x Tg P => match m with [(4%nat, _)] => Err ERuntime | _ => lin_solve [64; 32; 128] (5963 # 20) m x Tg P end)
+Definition exOs := mkO (lin_H exC (5963 # 20)) (fun _ _ _ _ => 0)
+                       (fun m x Tg P => match m with [(4%nat, _)] => Err ERuntime | _ => lin_solve exC (5963 # 20) m x Tg P end)
                        (fun _ _ _ _ => Err EOther) [].
 Example C02_setH_flip_nonvacuous :
   exists s', setH exOs exA 8192 = (s', None) /\ phase1 s' = 3%nat /\ getH exOs s' == 8192.
